@@ -12,10 +12,11 @@ for d in $ROOT/*/; do
   id=$(basename $d)
   for p in $d/patch*.diff; do
     [ -f "$p" ] || continue
+    case $id in C??-*) own=${id%%-*};; *) own=$id;; esac
     git -C $WT checkout -q -- . ; git -C $WT clean -fdq
     if ! git -C $WT apply "$p" 2>/dev/null; then echo "$id $(basename $p): DOES NOT APPLY"; continue; fi
     res=""
-    props="$PROPS"; [ "$PROPS" = "own" ] && props=$id
+    props="$PROPS"; [ "$PROPS" = "own" ] && props=$own
     for prop in $props; do
       out=$(BCL_REPO=$WT /verif/run $prop quick -evidence /tmp/scratch/ev-$prop.json 2>&1); code=$?
       res="$res $prop=$code"
